@@ -294,6 +294,22 @@ impl Ord for Key {
         match self.labels.len() {
             0 => cmp::Ordering::Equal,
             1 => self.labels[0].cmp(&other.labels[0]),
+            2 => {
+                // `PartialEq` and `Hash` treat two labels as an unordered pair, so order each
+                // side's labels fully before comparing to stay consistent with them.
+                let ordered = |labels: &'_ [Label]| -> (usize, usize) {
+                    if labels[0] <= labels[1] {
+                        (0, 1)
+                    } else {
+                        (1, 0)
+                    }
+                };
+                let (a0, a1) = ordered(&self.labels);
+                let (b0, b1) = ordered(&other.labels);
+                self.labels[a0]
+                    .cmp(&other.labels[b0])
+                    .then_with(|| self.labels[a1].cmp(&other.labels[b1]))
+            }
             n if n < 8 => {
                 let mut labels_sort_map: [u8; 8] = [0, 1, 2, 3, 4, 5, 6, 7];
                 labels_sort_map[..n].sort_by_key(|i| self.labels[*i as usize].key());
